@@ -3,11 +3,13 @@ package main
 
 import (
 	"verif/checks/c02"
+	"verif/checks/c03"
 	"verif/engine/ev"
 )
 
 func main() {
 	ev.Main(map[string]*ev.Check{
 		"C02": c02.Check,
+		"C03": c03.Check,
 	})
 }
